@@ -96,8 +96,12 @@ def c_source_line(repo, relpath, name):
     return '#line 1 "%s"\n' % os.path.join(repo, relpath) + hits[0]
 
 
+# muscle's allocator wrappers (GlobalMemoryAllocator.cpp) are thin wrappers over the C allocator in the normal build
+ALLOC_RENAMES = {'muscleAlloc': 'mv_muscleAlloc', 'muscleFree': 'free', 'muscleRealloc': 'mv_muscleRealloc'}
+
+
 class Lowerer:
-    def __init__(self, docs, follow=None, opaque_records=(), stub_records=None, extra_noop=(), rename=None, memberwise=(), vdispatch=(), vstatic=()):
+    def __init__(self, docs, follow=None, opaque_records=(), stub_records=None, extra_noop=(), rename=None, memberwise=(), vdispatch=(), vstatic=(), flat_idiom=(), member_array_as_pointer=()):
         self.docs = docs
         self.repo = os.environ.get('MV_REPO', '/repo')
         self.byid = {}
@@ -111,6 +115,11 @@ class Lowerer:
         # the caller must discharge or list): copied as plain C struct values
         self.memberwise = set(memberwise)
         self.vdispatch = set(vdispatch)
+        # functions that compare/step pointers outside their object on purpose (flat-memory idiom): CBMC's pointer
+        # check is switched off inside them (listed in the evidence)
+        self.flat_idiom = set(flat_idiom)
+        # member arrays that the code indexes past their end on purpose (aliasing with the next member)
+        self.member_array_as_pointer = set(member_array_as_pointer)
         self.vstatic = set(vstatic)
         self.noop = set(NOOP_CALLS) | set(extra_noop)
         self.done = {}          # func id -> C text
@@ -131,6 +140,7 @@ class Lowerer:
         self.static_locals = []
         self.edges = {}
         self.blobs = []
+        self.unions = set()
         self.c_extracted = {}
         self.gedges = {}
         self.cur_name = None
@@ -261,6 +271,12 @@ class Lowerer:
         for k, v in self.records.items():
             if k.replace(' ', '') == key or k.replace(' ', '') == 'muscle::' + key:
                 return k, v
+        # clang prints a specialization without its defaulted trailing template arguments
+        if key.endswith('>'):
+            pre = key[:-1] + ','
+            hits = [(k, v) for k, v in self.records.items() if k.replace(' ', '').startswith(pre) or k.replace(' ', '').startswith('muscle::' + pre)]
+            if len(hits) == 1:
+                return hits[0]
         return None, None
 
     def ctype(self, t, decl_name=None):
@@ -362,6 +378,16 @@ class Lowerer:
                     self._enum_names.add(self.qualname(n).replace('muscle::', ''))
         return self._enum_names
 
+    def nontrivial_byval(self, t):
+        qt = ((t.get('desugaredQualType') or t.get('qualType')) if isinstance(t, dict) else t).strip()
+        if qt.endswith('&') or qt.endswith('*') or qt.endswith(']'):
+            return False
+        q = self._strip_cv(qt)
+        rn, rec = self.find_record(q)
+        if rec is None:
+            return False
+        return not self.trivially_copyable({'qualType': q})
+
     def is_ref(self, t):
         qt = (t.get('qualType') if isinstance(t, dict) else t).strip()
         return qt.endswith('&')
@@ -409,7 +435,10 @@ class Lowerer:
                 self.blobs.append('%s: field %s (%s)' % (rn, f['name'], e))
         if not lines:
             lines.append('  char __empty;')
-        self.struct_defs[sn] = 'struct %s {\n%s\n};\n' % (sn, '\n'.join(lines))
+        tag = 'union' if rec.get('tagUsed') == 'union' else 'struct'
+        if tag == 'union':
+            self.unions.add(sn)
+        self.struct_defs[sn] = '%s %s {\n%s\n};\n' % (tag, sn, '\n'.join(lines))
         self.struct_order.append(sn)
         return sn
 
@@ -471,7 +500,17 @@ class Lowerer:
         return None
 
     def is_method(self, decl):
-        return decl.get('kind') in ('CXXMethodDecl', 'CXXConstructorDecl', 'CXXDestructorDecl', 'CXXConversionDecl') and decl.get('storageClass') != 'static'
+        if decl.get('kind') not in ('CXXMethodDecl', 'CXXConstructorDecl', 'CXXDestructorDecl', 'CXXConversionDecl'):
+            return False
+        if decl.get('storageClass') == 'static':
+            return False
+        # an out-of-line definition does not repeat `static`: look at every redeclaration
+        c = self.canon.get(decl.get('id'))
+        if c is not None:
+            for i, cc in self.canon.items():
+                if cc == c and self.byid[i].get('storageClass') == 'static':
+                    return False
+        return True
 
     def ret_type(self, decl):
         qt = decl['type']['qualType']
@@ -502,7 +541,10 @@ class Lowerer:
             ps.append(self.this_type(decl) + ' *this')
         for p in self.params(decl):
             nm = p.get('name') or ('__unnamed%d' % len(ps))
-            ps.append(self.ctype(p['type'], nm))
+            if self.nontrivial_byval(p['type']):
+                ps.append(self.ctype(p['type'], '*' + nm))   # invisible reference (Itanium ABI): the callee works on the caller's temporary
+            else:
+                ps.append(self.ctype(p['type'], nm))
         if k in ('CXXConstructorDecl', 'CXXDestructorDecl'):
             rt = 'void'
         else:
@@ -525,7 +567,7 @@ class Lowerer:
             self.c_extracted.setdefault(d['name'], C_SOURCE_FUNCS[d['name']])
             return d['name']
         if d.get('name') in C_PASSTHROUGH_CALLS and not self.is_method(d):
-            return d['name']
+            return ALLOC_RENAMES.get(d['name'], d['name'])
         fid = d['id']
         if fid in self.done or fid in [t for t in self.todo]:
             return nm
@@ -585,6 +627,9 @@ class Lowerer:
             out += self.member_dtors(decl, 1)
         out += '}\n'
         self.stats[self.fname(decl)] = self.nstmt
+        qn = self.qualname(decl).replace('muscle::', '')
+        if any(qn.endswith(f) for f in self.flat_idiom):
+            out = '#pragma CPROVER check push\n#pragma CPROVER check disable "pointer"\n' + out + '#pragma CPROVER check pop\n'
         return out
 
     def ctor_inits(self, decl):
@@ -640,6 +685,8 @@ class Lowerer:
             # in-class member initialiser: find the field
             raise Unsupported('CXXDefaultInitExpr')
         if k in ('CXXConstructExpr', 'CXXTemporaryObjectExpr'):
+            while e0.get('elidable') and len(self.children(e0)) == 1 and self.strip(self.children(e0)[0]).get('kind') in ('CXXConstructExpr', 'CXXTemporaryObjectExpr'):
+                e0 = self.strip(self.children(e0)[0])     # copy elision
             ctor = self.ctor_of(e0)
             args = self.children(e0)
             if self.is_trivial_copy(e0, ctor, args):
@@ -811,8 +858,17 @@ class Lowerer:
             return s
         if k in ('CXXForRangeStmt', 'CXXTryStmt', 'GotoStmt', 'LabelStmt', 'GCCAsmStmt', 'CoroutineBodyStmt'):
             raise Unsupported(k)
-        # expression statement
-        return I + self.expr(n, stmt=True) + ';\n'
+        # expression statement (hoisting context for full-expression temporaries)
+        saved = (getattr(self, 'pre', None), getattr(self, 'post', None))
+        self.pre, self.post = [], []
+        try:
+            text = self.expr(n, stmt=True)
+            pre, post = self.pre, self.post
+        finally:
+            self.pre, self.post = saved
+        if pre or post:
+            return I + '{\n' + ''.join(I + '  ' + l + '\n' for l in pre) + I + '  ' + text + ';\n' + ''.join(I + '  ' + l + '\n' for l in post) + I + '}\n'
+        return I + text + ';\n'
 
     loop_depth = []
 
@@ -854,6 +910,8 @@ class Lowerer:
         nm = v['name']
         init = [c for c in self.children(v)]
         static = 'static ' if v.get('storageClass') == 'static' else ''
+        if static and 'const' in (t.get('qualType') or ''):
+            static = 'static const '   # dfcc treats non-const statics as unknown at entry
         if self.is_ref(t):
             if not init:
                 raise Unsupported('reference without init')
@@ -888,6 +946,11 @@ class Lowerer:
             # a temporary bound to a reference: C99 compound literal (lifetime = enclosing block)
             t = e0.get('type', {})
             inner = self.children(e0)[0] if e0.get('kind') == 'MaterializeTemporaryExpr' else e0
+            if self.has_nontrivial_dtor(t):
+                x = self.expr(inner)
+                if re.match(r'^__tmp\d+$', x):
+                    return '&' + x
+                raise Unsupported('temporary with non-trivial destructor bound to a reference: ' + str(t.get('qualType')))
             return '(&((%s[1]){ %s })[0])' % (self.ctype(t), self.expr(inner))
         if e0.get('kind') == 'ConditionalOperator':
             c = self.children(e0)
@@ -930,7 +993,7 @@ class Lowerer:
                 if not init:
                     raise Unsupported('default argument not found for %s' % callee.get('name'))
                 a = init[0]
-            if p is not None and self.is_ref(p['type']):
+            if p is not None and (self.is_ref(p['type']) or self.nontrivial_byval(p['type'])):
                 out.append(self.addr_of(a))
             else:
                 out.append(self.expr(a))
@@ -998,6 +1061,12 @@ class Lowerer:
         if k == 'ConditionalOperator':
             return '(%s ? %s : %s)' % (self.expr(ch[0]), self.expr(ch[1]), self.expr(ch[2]))
         if k == 'ArraySubscriptExpr':
+            b0 = self.strip(ch[0])
+            while b0.get('kind') == 'ImplicitCastExpr':
+                b0 = self.children(b0)[0]
+            if b0.get('kind') == 'MemberExpr' and b0.get('name') in self.member_array_as_pointer:
+                et = self.ctype(n['type'])
+                return '(*((%s *)(%s) + (%s)))' % (et, self.expr(ch[0]), self.expr(ch[1]))
             return '%s[%s]' % (self.expr(ch[0]), self.expr(ch[1]))
         if k == 'UnaryExprOrTypeTraitExpr':
             nm = n.get('name', 'sizeof')
@@ -1100,7 +1169,7 @@ class Lowerer:
             is_local = kind == 'ParmVarDecl' or (parent is not None and parent.get('kind') == 'DeclStmt')
             if not is_local:
                 nm = self.use_global(full)
-            if self.is_ref(rd.get('type', {})):
+            if self.is_ref(rd.get('type', {})) or (kind == 'ParmVarDecl' and self.nontrivial_byval(rd.get('type', {}))):
                 return '(*%s)' % nm
             return nm
         if kind == 'NonTypeTemplateParmDecl':
@@ -1174,6 +1243,9 @@ class Lowerer:
         return '%s.%s' % (b, name)
 
     def construct(self, n, ch):
+        if n.get('elidable') and len(ch) == 1:
+            # copy elision (what g++ does in the real build): the temporary IS the object being initialised
+            return self.expr(ch[0])
         ctor = self.ctor_of(n)
         if self.is_trivial_copy(n, ctor, ch):
             return self.expr(ch[0])
@@ -1185,7 +1257,12 @@ class Lowerer:
         self.tmpn += 1
         tmp = '__tmp%d' % self.tmpn
         if self.has_nontrivial_dtor(t):
-            raise Unsupported('temporary of type with non-trivial destructor: %s' % t.get('qualType'))
+            if getattr(self, 'pre', None) is None:
+                raise Unsupported('temporary of type with non-trivial destructor outside a hoistable statement: %s' % t.get('qualType'))
+            # full-expression temporary: constructed before the statement, destroyed right after it (reverse order)
+            self.pre.append('%s; %s(&%s%s);' % (self.ctype(t, tmp), self.want(ctor), tmp, ''.join(', ' + a for a in self.call_args(ctor, ch))))
+            self.post.insert(0, self.dtor_call(tmp, t))
+            return tmp
         return '({ %s; %s(&%s%s); %s; })' % (self.ctype(t, tmp), self.want(ctor), tmp,
                                              ''.join(', ' + a for a in self.call_args(ctor, ch)), tmp)
 
@@ -1423,7 +1500,9 @@ class Lowerer:
         """struct definitions, globals, prototypes, alias defines (to be followed by the contracts)"""
         out = ['/* generated by mv/cxx2c.py from clang\'s AST of the working tree; do not edit */',
                '#include <stdlib.h>', '#include <string.h>', '#include <stdint.h>', '#include <stddef.h>',
-               'void *mv_new_array(unsigned long n, unsigned long sz);']
+               'void *mv_new_array(unsigned long n, unsigned long sz);',
+               'static void *mv_muscleAlloc(unsigned long n, _Bool retry) { return malloc(n); }',
+               'static void *mv_muscleRealloc(void *p, unsigned long n, _Bool retry) { return realloc(p, n); }']
         for sn, txt in self.struct_defs.items():
             out.append('struct %s;' % sn)
         for sn in self.struct_order:
@@ -1441,7 +1520,12 @@ class Lowerer:
         for fid in self.order:
             out.append(self.protos[fid])
         self.alias_defines()
-        return '\n'.join(out) + '\n'
+        return self.fix_unions('\n'.join(out) + '\n')
+
+    def fix_unions(self, text):
+        for sn in self.unions:
+            text = re.sub(r'\bstruct %s\b' % re.escape(sn), 'union ' + sn, text)
+        return text
 
     def bodies(self):
         out = []
@@ -1455,7 +1539,7 @@ class Lowerer:
         for fid in self.order:
             out.append(self.done[fid])
         out.append('\n'.join(init) + '\n')
-        return '\n'.join(out)
+        return self.fix_unions('\n'.join(out))
 
 
 def find_functions(L, record=None, names=None, qualnames=None, pred=None):
